@@ -58,6 +58,17 @@ def handler(case):
                 viols.append(("island.balance", f"{tag}: sheds {float(sum(shed))} < demand {float(sum(loads))} - supply {float(supply)} - slack"))
         # (c) fed tree whose limits suffice: supplied in full
         z = lpcap.zero_shed_point(r) if r["call"] is not None else None
+        # (c') independent of the implementation's load flow: a fed tree without internal production in which every line's
+        # nominal capacity exceeds the demand behind it has no reason to shed (the line limits of the documented problem,
+        # min(capacity, |flow|), can only bind there if the load flow under-reports a flow, which includes all losses)
+        if z is not None and fed and all(g == 0 or g >= lpcap.INF for g in gens):
+            flows = z[n:n + len(ls)]
+            if all(abs(f) <= lpcap.fx(l.capacity) - F(1, 10 ** 9) for f, l in zip(flows, lns)):
+                for j, sj in enumerate(shed):
+                    if sj > (n + 1) * ALPHA + F(1, 10 ** 9):
+                        viols.append(("island.fed-shed-capacity", f"{tag}: every line's capacity exceeds the demand behind it and the island is fed, yet {names[j]} sheds {float(sj)} "
+                                                                  f"(line limits used: {[float(c) for a, b, c in ls]}, demand behind the lines: {[float(abs(f)) for f in flows]})"))
+                        break
         if z is not None:
             q_ops += [lpcap.island_op(loads, costs, gens, ls), f"lp feas {flist(z)}"]
             q_meta.append((r, shed, tag))
